@@ -5,6 +5,7 @@ import QM.Strv
 import QM.Parser
 import QM.Path
 import QM.Port
+import QM.Lookup
 
 /-! Line protocol of the model driver: the same operations as `src/verif_driver.rs` (answered by the
     model of the implementation) plus `spec_*` operations (answered by the specifications, used as
@@ -43,6 +44,58 @@ def specSplit (f : P.Flags) (s : Str) : String :=
   | some ws => "ok " ++ list ws
   | none => "einval"
 
+def ltStr : Str → Str → Bool
+  | [], [] => false
+  | [], _ :: _ => true
+  | _ :: _, [] => false
+  | a :: x, b :: y => a.toNat < b.toNat || (a == b && ltStr x y)
+
+def insertSorted (kv : Str × Str) : List (Str × Str) → List (Str × Str)
+  | [] => [kv]
+  | p :: r => if ltStr kv.1 p.1 then kv :: p :: r else p :: insertSorted kv r
+def sortKV (l : List (Str × Str)) : List (Str × Str) := l.foldl (fun acc kv => insertSorted kv acc) []
+
+def validRaw (r : Str) : Bool := (P.unquoteValue true r).isSome
+
+/-- script of multimap operations followed by queries, as `run_unit_script` in src/verif_driver.rs -/
+partial def unitScript (u : MM.SUnit) (out : List String) : List String → String
+  | [] => "ok " ++ " | ".intercalate out.reverse
+  | "load" :: t :: r => match Parse.parse parseEnv (hexd t) with
+      | .ok x => unitScript x out r
+      | .error _ => "err Unit"
+  | "add" :: a :: k :: v :: r => unitScript (MM.addEntry u (hexd a) (hexd k) (P.quoteValue (hexd v))) out r
+  | "addraw" :: a :: k :: v :: r =>
+      if validRaw (hexd v) then unitScript (MM.addEntry u (hexd a) (hexd k) (hexd v)) out r
+      else unitScript u ("err Unquoting" :: out) r
+  | "set" :: a :: k :: v :: r => unitScript (MM.setEntry u (hexd a) (hexd k) (P.quoteValue (hexd v))) out r
+  | "setraw" :: a :: k :: v :: r =>
+      if validRaw (hexd v) then unitScript (MM.setEntry u (hexd a) (hexd k) (hexd v)) out r
+      else unitScript u ("err Unquoting" :: out) r
+  | "prepend" :: a :: k :: v :: r => unitScript (MM.prependEntry u (hexd a) (hexd k) (P.quoteValue (hexd v))) out r
+  | "rename" :: a :: b :: r => unitScript (MM.renameSection u (hexd a) (hexd b)) out r
+  | "merge" :: t :: r => match Parse.parse parseEnv (hexd t) with
+      | .ok x => unitScript (MM.mergeFrom u x) out r
+      | .error _ => "err Unit"
+  | "lookup" :: a :: k :: r => unitScript u (opt (Cv.lookup u (hexd a) (hexd k)) :: out) r
+  | "lookup_last" :: a :: k :: r => unitScript u (opt (Cv.lookup u (hexd a) (hexd k)) :: out) r
+  | "lookup_last_raw" :: a :: k :: r => unitScript u (opt (Cv.lookupLastValue u (hexd a) (hexd k)) :: out) r
+  | "lookup_all" :: a :: k :: r => unitScript u (list (Cv.lookupAll u (hexd a) (hexd k)) :: out) r
+  | "lookup_all_raw" :: a :: k :: r => unitScript u (list (Cv.lookupAllValues u (hexd a) (hexd k)) :: out) r
+  | "history" :: a :: k :: r => unitScript u (list (Cv.assignments u (hexd a) (hexd k)) :: out) r
+  | "lookup_all_args" :: a :: k :: r => unitScript u (list (Cv.lookupAllArgs u (hexd a) (hexd k)) :: out) r
+  | "lookup_all_strv" :: a :: k :: r => unitScript u (list (Cv.lookupAllStrv u (hexd a) (hexd k)) :: out) r
+  | "lookup_all_key_val" :: a :: k :: r =>
+      unitScript u (list ((sortKV (Cv.lookupAllKeyVal u (hexd a) (hexd k))).flatMap fun kv => [kv.1, kv.2]) :: out) r
+  | "lookup_bool" :: a :: k :: r =>
+      unitScript u ((match Cv.lookupBool u (hexd a) (hexd k) with | some b => "some " ++ toString b | none => "none") :: out) r
+  | "has_key" :: a :: k :: r => unitScript u (toString (Cv.hasKey u (hexd a) (hexd k)) :: out) r
+  | "has_section" :: a :: r => unitScript u (toString (MM.hasSection u (hexd a)) :: out) r
+  | "len" :: r => unitScript u (toString u.length :: out) r
+  | "to_string" :: r => unitScript u (hexe (Parse.printUnit u) :: out) r
+  | "write_to" :: r => unitScript u (hexe (Parse.printUnit u) :: out) r
+  | "dump" :: r => unitScript u (dumpUnit u :: out) r
+  | _ => "bad-op"
+
 def step (line : String) : String :=
   match line.splitOn "\t" with
   | "quote_words" :: ws => "ok " ++ hexe (P.quoteWords (ws.map hexd))
@@ -55,6 +108,7 @@ def step (line : String) : String :=
   | ["parse", a] => match Parse.parse parseEnv (hexd a) with
       | .ok u => "ok " ++ dumpUnit u
       | .error _ => "err"
+  | "unit" :: script => unitScript [] [] script
   | ["clean", a] => "ok " ++ hexe (Pth.cleaned (hexd a))
   | ["port_range", a] => "ok " ++ toString (Port.isPortRange (hexd a))
   -- specifications
